@@ -146,6 +146,67 @@ func runExporter(c *ev.Ctx) {
 			}()
 		}
 	}
+	// re-export: a service that was exported, taken back and exported again has to reach the peer again (the peer
+	// dropped it when it saw the list without it), also when its instances did not change in between
+	ran++
+	wg.Add(1)
+	go func() {
+		defer wg.Done()
+		w := world.New()
+		w.Rec.Forward = true
+		ctx, cancel := context.WithCancel(context.Background())
+		defer cancel()
+		go w.Rec.Real.Run(ctx)
+		both := map[string][]string{"web": {"p1"}, "db": {"p1"}}
+		w.ApplyAll([]world.Op{cmdlib.PeeringWrite("p1", pbpeering.PeeringState_ACTIVE, false, ""), cmdlib.RegNode(n1), svc("web", 80), svc("db", 5432), cmdlib.Exported(both).Upsert()})
+		ch := peerstream.VerifExporter(ctx, subBackend{w.Rec.Real}, func() peerstream.StateStore { return w.Store() }, cmdlib.DC, cmdlib.PeerIDs["p1"], "p1")
+		// waitFor consumes updates until the list equals want (list != nil) or an update of the named service arrives
+		waitFor := func(list []string, service string, limit time.Duration) bool {
+			sort.Strings(list)
+			deadline := time.After(limit)
+			for {
+				select {
+				case u := <-ch:
+					if l, ok := peerstream.VerifIsExportedList(u); ok {
+						got := append([]string{}, l...)
+						sort.Strings(got)
+						if list != nil && strings.Join(got, ",") == strings.Join(list, ",") {
+							return true
+						}
+					} else if service != "" && peerstream.VerifExportedServiceName(u.CorrelationID) == service {
+						return true
+					}
+				case <-deadline:
+					return false
+				}
+			}
+		}
+		if !waitFor([]string{"db", "web"}, "", 10*time.Second) || !waitFor(nil, "web", 10*time.Second) {
+			return // not judged on this machine
+		}
+		time.Sleep(300 * time.Millisecond)
+		w.Apply(cmdlib.Exported(map[string][]string{"db": {"p1"}}).Upsert())
+		if !waitFor([]string{"db"}, "", 10*time.Second) {
+			return
+		}
+		w.Apply(cmdlib.Exported(both).Upsert())
+		if !waitFor([]string{"db", "web"}, "", 10*time.Second) {
+			return
+		}
+		mu.Lock()
+		judged++
+		mu.Unlock()
+		if waitFor(nil, "web", 60*time.Second) {
+			return
+		}
+		// nothing for web in a minute. Is the exporter alive at all? A change of db must still come through.
+		w.Apply(svc("db", 5433))
+		if !waitFor(nil, "db", 20*time.Second) {
+			return // the pipeline is not moving on this machine: nothing is judged
+		}
+		c.Violate("C17:exporter-never-sends-a-re-exported-service", "web and db exported to p1, web taken back (the peer was told the list [db]), web exported again (the peer was told [db web]): "+
+			"no instance update for web reached the peer within a minute, while a later change of db did", map[string]any{"sequence": "export web,db; unexport web; re-export web"})
+	}()
 	wg.Wait()
 	c.Set("exporter_live_cases", ran)
 	c.Set("exporter_live_cases_judged", judged)
